@@ -43,7 +43,7 @@ type Member struct {
 
 // PassThroughNames lists the non-buffering interceptors of C01's chains.
 var PassThroughNames = []string{
-	"nack-generator", "nack-responder", "nack-responder-rtx", "report-receiver", "report-sender", "twcc-sender", "twcc-header-extension",
+	"nack-generator", "nack-generator-limited", "nack-responder", "nack-responder-rtx", "report-receiver", "report-sender", "twcc-sender", "twcc-header-extension",
 	"rfc8888", "rtpfb", "stats", "packetdump-sender", "packetdump-receiver", "intervalpli", "flexfec", "cc-noop-pacer", "noop",
 }
 
@@ -88,6 +88,9 @@ func NewMember(name string, interval time.Duration) Member { //nolint:cyclop
 	switch name {
 	case "nack-generator":
 		m.Factory = must(nack.NewGeneratorInterceptor(nack.GeneratorInterval(interval), nack.GeneratorSize(64), nack.WithGeneratorLoggerFactory(lf)))
+	case "nack-generator-limited":
+		m.Factory = must(nack.NewGeneratorInterceptor(nack.GeneratorInterval(interval), nack.GeneratorSize(128), nack.GeneratorMaxNacksPerPacket(2), nack.GeneratorSkipLastN(1),
+			nack.WithGeneratorLoggerFactory(lf)))
 	case "nack-responder":
 		m.Factory = must(nack.NewResponderInterceptor(nack.ResponderSize(64), nack.WithResponderLoggerFactory(lf)))
 	case "nack-responder-rtx":
